@@ -375,3 +375,6 @@ PROPS['C10']['explanation'] += ' Verus: the sweeper hook chain (closure bodies o
 PROPS['C10']['not_covered'] = ['"eventually removed" (liveness over the tick schedule visiting every shard residue) is NOT decided']
 PROPS['C05']['explanation'] += ' The worker\'s delete hook and the sweeper\'s hook chain are verified as functions (closure bodies extracted from spin / ttl_ticker).'
 PROPS['C05']['not_covered'] = ['put racing upsert / eviction racing upsert from another thread (put_or_update updates the Store and the ticker outside the worker): not explored']
+
+PROPS['C13']['verus_only'] = {'api': [r'CacheD::', r'MultiGetIterator::next', r'MultiGetMapIterator::next']}
+PROPS['C13']['floor'] = {'quick': 18, 'thorough': 18}
